@@ -1,6 +1,6 @@
 SPECIFICATION Spec
 CONSTANTS
-  CurveP = {1,2,3,4}
+  CurveP = {1,2,3}
   CurveInt = 3
   SurfMode = 2
   Seed = 2
